@@ -42,8 +42,8 @@ def run_episode(tracer, d, cfg, policy, max_steps=400, env_hook=None, seed=None)
     for _ in range(max_steps):
         a = policy(env)
         actions.append(a)
-        pre_env = env_sx(tracer, env) if tracer.record_env else None
-        n0 = len(tracer.records)
+        pre_env = env_sx(tracer, env) if (tracer is not None and tracer.record_env) else None
+        n0 = len(tracer.records) if tracer is not None else 0
         try:
             obs, rew, term, trunc, info = env.step(a)
             if pre_env is not None:
